@@ -4,7 +4,7 @@ import DL.Gen.PanicSites
 # C01 — the inventory of explicit panic sites, re-decided on every run
 
 `Gen/PanicSites.lean` (syn translator) lists every `.unwrap()` / `.expect(..)` call, every panicking macro and every index
-expression `a[i]` of `src/` outside test modules, aggregated by (file, enclosing function, kind): 105 sites in 72 rows today.
+expression `a[i]` of `src/` outside test modules, aggregated by (file, enclosing function, kind): 106 sites in 73 rows today.
 The theorem below says that this inventory is exactly the reviewed one.  What the review rests on:
 
 * `src/js_regex/{validator,reader}.rs`: **proved** unreachable — the model transcribes every `unwrap`, index and
@@ -59,6 +59,7 @@ def reviewedPanicSites : List (String × String × String × Nat) := [
   ("src/rules/getter_return.rs", "report_always_expected", "expect", 1),
   ("src/rules/getter_return.rs", "report_expected", "expect", 1),
   ("src/rules/guard_for_in.rs", "for_in_stmt", "index", 1),
+  ("src/rules/jsx_boolean_value.rs", "jsx_attr", "index", 1),
   ("src/rules/jsx_curly_braces.rs", "", "unwrap", 1),
   ("src/rules/no_constant_condition.rs", "is_constant", "index", 1),
   ("src/rules/no_deprecated_deno_api.rs", "extract_symbol", "index", 1),
